@@ -9,7 +9,7 @@ import gradops_lib as gl
 from props import C18 as c18
 
 ID = 'C17'
-GEN_SECTIONS = ['GenGradOps', 'FP_gradops17']
+GEN_SECTIONS = ['GenGradOps', 'FP_gradops17', 'GenAddGrad', 'FP_addgrad']
 COQ_TARGETS = ['Props/C17.vo']
 EXTRACT_TARGETS = ['Extract/Ex_gradops.vo']
 RUNNER = 'gradops'
